@@ -65,6 +65,25 @@ def gen_cases(rnd, n):
     return cases
 
 
+def gen_large_cases(rnd, n):
+    """a few LARGE tables (more than 1000 records beyond the bound): buffering writers that trim, batch or spill their state
+    only show it there.  Few distinct values, so duplicates and sort ties dominate."""
+    cases = []
+    for _ in range(n):
+        nrows = rnd.randint(1100, 2600)
+        vals = rnd.sample(['x', 'y', 'z', 'w', 'v', 'u', 't'], rnd.randint(2, 5))
+        A = [[rnd.choice(vals), rnd.choice(vals), str(i % rnd.choice([3, 7, 50]))] for i in range(nrows)]
+        q = {'items': [{'e': ['a', rnd.randrange(2)]}] + ([{'e': ['a', 2]}] if rnd.random() < 0.5 else [])}
+        q['order'] = [['a', rnd.randrange(3)]] + ([['a', rnd.randrange(3)]] if rnd.random() < 0.3 else [])
+        q['desc'] = rnd.random() < 0.5
+        q['distinct'] = rnd.choice(['yes', 'count', 'count', 'no'])
+        q['top'] = rnd.choice([1, 2, 3, 5, 10, 40])
+        if rnd.random() < 0.3:
+            q['where'] = ['ne', ['a', 0], ['lit', vals[0]]]
+        cases.append({'q': q, 'A': A, 'B': None})
+    return cases
+
+
 def impl_rows(case):
     """run the real engine in-process through the driver protocol (one line) and return parsed result"""
     import common
@@ -77,6 +96,9 @@ def run(res, tier, seed):
     res.assumptions = ['ORDER BY keys of one type (Python raises TypeError otherwise)', 'DISTINCT rows hashable (no list-valued cells)']
     rnd = random.Random(seed * 2750159 + 2)
     cases = gen_cases(rnd, 7000 if tier == 'quick' else 150000)
+    large = gen_large_cases(random.Random(seed * 31 + 77), 8 if tier == 'quick' else 80)
+    res.count('large_tables(>1000 records beyond the bound)', len(large))
+    cases = large + cases
     for c in cases:
         q = c['q']
         if c['A'] and (q.get('order') or q.get('distinct', 'no') != 'no' or q.get('top') is not None):
